@@ -977,6 +977,7 @@ package mcp
 //@   modifies *
 //@   ensures @attached-stream-is-refused at(locked_stmu_1, local(s).w) != nil && at(unlocked_cmu_1, inDom(c.streams, streamID)) && at(locked_cmu_1, inDom(c.streams, streamID)) ==> result.0 == nil && result.1 == nil && calls(emit) == 0 && calls(replaySource) == 0 && calls(reject) == 1 && callArg(reject, 1, 2) == 409
 //@   ensures @handed-back-stream-is-attached-to-this-exchange result.0 != nil ==> result.1 != nil && at(unlocked_stmu_1, result.0.w) == w && at(unlocked_stmu_1, result.0.done) == result.1 && result.0 == at(unlocked_cmu_1, c.streams[streamID])
+//@   ensures @temporary-entry-never-outlives-the-call !at(locked_cmu_1, inDom(c.streams, streamID)) ==> reached(unlocked_cmu_c1_1) && !at(unlocked_cmu_c1_1, inDom(c.streams, streamID))
 //@   ensures @index-continues-after-the-replay result.0 != nil ==> at(unlocked_stmu_1, result.0.lastIdx) == lastIdx + calls(emit)
 //@   assert at call After: @replay-inside-the-stream-lock held(stmu) && $3 == local(s).id && $4 == lastIdx
 //@   assert at call writeEvent: @events-written-inside-the-stream-lock held(stmu) && $0 == w
